@@ -261,6 +261,7 @@ func (fc *FnCtx) execBlock(b *ssa.BasicBlock, st *State) []edgeOut {
 			v := fc.coerce(fc.val(x.Val), lv.Typ)
 			fc.frameCheck(st, lv, x.Pos())
 			fc.guardCheck(st, lv, x.Pos(), "write")
+			fc.ownCheck(st, lv, x.Pos())
 			vc.store(st, lv, v)
 			fc.afterStore(st, lv, x)
 		case *ssa.Convert:
@@ -380,6 +381,38 @@ func (fc *FnCtx) guardCheck(st *State, lv *LV, pos token.Pos, what string) {
 	root := fc.unitCtx()
 	goal := mkOr(mkLe(root.entry.alloc, lv.Ref), held)
 	fc.vc.oblige(st, "lock", "", what+" "+lv.Col+"."+field+" under "+mu, fc.e.pos(pos), goal)
+}
+
+// ownCheck: a write to a field declared `owner T.f ... writewhen G` needs G(self)
+// at the store, unless the object was allocated by this activation.
+func (fc *FnCtx) ownCheck(st *State, lv *LV, pos token.Pos) {
+	if lv.Elem {
+		return
+	}
+	field := lv.Path
+	if k := strings.Index(field, "."); k >= 0 {
+		field = field[:k]
+	}
+	if k := strings.Index(field, "["); k >= 0 {
+		field = field[:k]
+	}
+	od := fc.e.spec.Owners[lv.Col+"."+field]
+	if od == nil || od.WriteWhen == nil {
+		return
+	}
+	T := fc.e.lookupType("*" + lv.Col)
+	if T == nil {
+		return
+	}
+	env := fc.env(st, nil)
+	env.fcLocalsOff()
+	env.vars = map[string]SV{"self": {Typ: T, T: []Term{lv.Ref}}}
+	fc.vc.safeEval("owner "+od.Field, func() {
+		g := env.evalBool(od.WriteWhen)
+		root := fc.unitCtx()
+		goal := mkOr(mkLe(root.entry.alloc, lv.Ref), g)
+		fc.vc.oblige(st, "own", "", "write "+od.Field+" only when "+od.WhenSrc, fc.e.pos(pos), goal)
+	})
 }
 
 func (fc *FnCtx) newRef(st *State, hint string) Term {
